@@ -13,7 +13,7 @@ func init() {
 	register(&Property{
 		ID:      "C18",
 		Engines: []string{"cfg", "lockset"},
-		Explanation: "Stop, structural part (termination itself is liveness): Engine.Stop performs its steps in the order listeners -> snapshot under the engine mutex -> close every snapshot entry -> wgConn.Wait -> stop hook -> timer / IO pool -> IO pollers -> WaitGroup.Wait, with both waits on every path to the return (O1); poller.stop stores the shutdown flag before the wake-up and both loops re-read it every iteration (O2); every poller goroutine is started after Add(1), defers Done first and (IO pollers) the close of its descriptors, newPoller closes what it opened on each error exit, nbhttp.listen pairs Add with a deferred Done (O3); nbhttp Stop/Shutdown stop listeners, listener mux and pools in the required order (O4); lmux.Stop closes every listener and the close channel and Accept selects on it (O5); the connection WaitGroup Add/Done sites are the frozen sets (O6).",
+		Explanation: "Stop, structural part (termination itself is liveness): Engine.Stop performs its steps in the order listeners -> snapshot under the engine mutex -> close every snapshot entry -> wgConn.Wait -> stop hook -> timer / IO pool -> IO pollers -> WaitGroup.Wait, with both waits on every path to the return (O1); poller.stop stores the shutdown flag before the wake-up and both loops re-read it every iteration (O2); every poller goroutine is started after Add(1), defers Done first and (IO pollers) the close of its descriptors, newPoller closes what it opened on each error exit, nbhttp.listen pairs Add with a deferred Done (O3); nbhttp Stop/Shutdown stop listeners, listener mux and pools in the required order (O4); lmux.Stop closes every listener and the close channel and Accept selects on it (O5); the connection WaitGroup Add/Done sites are the frozen sets (O6). The blocking readers' clean-up untracks, reports and releases on every path (O7); every torn-down connection reaches the close notification (O8).",
 		NotCovered: "that Stop returns; goroutine / descriptor counts; races of Stop with accepts and callbacks",
 		Run:        runC18,
 	})
@@ -26,8 +26,10 @@ func runC18(c *Ctx) {
 	c.Rule("C18.O4", "E5", "nbhttp.Stop: shutdown flag, listeners, then core Stop; stopListeners stops the mux in mixed mode; the stop hook stops both pools and replaces the executors; Shutdown closes tracked connections before delegating", 4)
 	c.Rule("C18.O5", "E4", "lmux.Stop closes each underlying listener and the close channel; ChanListener.Accept selects on the close channel", 2)
 	c.Rule("C18.O7", "E4", "the blocking readers' deferred clean-up removes the connection from the tracked set (delete(engine.conns, key) under Engine.mux), reports the close and releases the load slot on every path: Shutdown waits for the set to drain", 2)
+	c.Rule("C18.O8", "E4", "every torn-down connection reaches the close notification that releases the connection WaitGroup (same rule as C03.O9): Stop waits on it", 1)
 	c.Rule("C18.O6", "E5", "connection WaitGroup pairing (same rule as C03.O3)", 2)
 	c18ReaderCleanup(c)
+	c03AlwaysNotifies(c, "C18.O8")
 
 	L := c.Locks()
 
